@@ -3,7 +3,11 @@
    the identity oracle: by export_order_independent any other oracle gives the same document. *)
 From Coq Require Import String List NArith ZArith Bool.
 Import ListNotations.
-Require Import Verif.Export.OasTypes Verif.Export.OasExport Verif.Export.OasCurrent Verif.Base.Harness.
+Require Import Verif.Export.OasTypes Verif.Export.OasExport Verif.Gen.ExportTables Verif.Base.Harness.
+
+(* the model of the CURRENT source: the tables are the regenerated ones (this file does not depend on the obligations
+   of OasCurrent.v, so the comparison keeps running when one of them breaks) *)
+Definition export3 : oracle -> sapp -> outcome doc3 := export3_with tables3_of_source.
 
 Definition N_list_eqb := list_eqb N.eqb.
 
